@@ -2971,6 +2971,11 @@ class Group(System):
         """
         if self._relevance_changed():
             self._jacobian = None
+            if self._owns_approx_jac and self.pathname and not self._first_call_to_linearize:
+                # which semi-total derivatives get approximated was decided using the old
+                # relevance, so decide again.
+                self._clear_jac_caches()
+                self._setup_approx_derivs()
 
         if self._jacobian is None:
             if self._owns_approx_jac:
